@@ -39,6 +39,10 @@ class Ctx:
         self.analysed = {'functions': set(), 'call_sites': 0, 'paths': 0}
         self.t0 = time.time()
 
+    def bound(self, quick, thorough):
+        """Analysis bound (loop unrolling, abstract registry size, ...) of the current tier."""
+        return thorough if self.tier == 'thorough' else quick
+
     # ---- recording
     def _text(self, node):
         if node is None:
